@@ -18,6 +18,11 @@ const etreePath = "github.com/beevik/etree"
 func oneField(r *Report, rule string, fn *ssa.Function, fc *FuncCtx, pkg, typ, field string) *ssa.Store {
 	lf := litFields(fn, pkg, typ)
 	sts := lf[field]
+	if len(sts) == 0 {
+		// the value may be built by a module helper returning (a pointer to) that type; callers must take the
+		// access path in the helper's own context (fc.A.Ctx(st.Parent()))
+		sts = helperLitFields(fc.A.P, fn, pkg, typ, field)
+	}
 	if len(sts) != 1 {
 		r.Bad(rule, fmt.Sprintf("%s: %s.%s", fc.A.P.FnName(fn), typ, field), fc.A.P.Pos(fn.Pos()), fmt.Sprintf("%d assignments to the field in this function (expected exactly one)", len(sts)))
 		return nil
@@ -325,8 +330,8 @@ func derivesFrom(v, src ssa.Value, depth int) bool {
 
 type signedObj struct {
 	fnPkg, fnRecv, fnName string
-	objType              string // Assertion / Response
-	outField             string // AssertionEl / ResponseEl
+	objType               string // Assertion / Response
+	outField              string // AssertionEl / ResponseEl
 }
 
 func checkC06Signed(r *Report, p *Prog) {
@@ -704,4 +709,30 @@ func checkRouting(r *Report, p *Prog, rule string) {
 	expectAP(r, rule, mr, a.Ctx(mr), modPath, "Response", "Destination", "IdpAuthnRequest.ACSEndpoint.Location", "the selected registered endpoint")
 	pb := p.MustFunc("saml", "IdpAuthnRequest", "PostBinding")
 	expectAP(r, rule, pb, a.Ctx(pb), modPath, "IdpAuthnRequestForm", "URL", "IdpAuthnRequest.ACSEndpoint.Location", "the selected registered endpoint")
+}
+
+
+// helperLitFields: assignments of typ.field inside library functions that fn calls and whose first result is (a pointer
+// to) typ - a composite literal factored out into a constructor helper.
+func helperLitFields(p *Prog, fn *ssa.Function, pkg, typ, field string) []*ssa.Store {
+	var out []*ssa.Store
+	seen := map[*ssa.Function]bool{}
+	for _, b := range fn.Blocks {
+		for _, in := range b.Instrs {
+			c, ok := in.(*ssa.Call)
+			if !ok || c.Call.StaticCallee() == nil {
+				continue
+			}
+			h := c.Call.StaticCallee()
+			if seen[h] || !p.InLibrary(h) || len(h.Blocks) == 0 || h.Signature.Results().Len() == 0 {
+				continue
+			}
+			if !typeIs(h.Signature.Results().At(0).Type(), pkg, typ) {
+				continue
+			}
+			seen[h] = true
+			out = append(out, litFields(h, pkg, typ)[field]...)
+		}
+	}
+	return out
 }
